@@ -14,6 +14,7 @@ import (
 	"time"
 
 	"github.com/bio-routing/bio-rd/protocols/bgp/packet"
+	"github.com/bio-routing/bio-rd/route"
 	"github.com/bio-routing/bio-rd/zzverif/vsched"
 )
 
@@ -442,3 +443,37 @@ func zvSessReplay(cfg zvSessCfg, hist []string, trace bool) zvSessTrace {
 }
 
 var _ = packet.MinLen
+
+type routeRoute = route.Route
+
+// zvPathDigest renders the attributes of a stored path (pointer-free).
+func zvPathDigest(p *route.Path) string {
+	if p == nil || p.BGPPath == nil {
+		return "nil"
+	}
+	b := p.BGPPath
+	var sb strings.Builder
+	if b.BGPPathA != nil {
+		nh := "nil"
+		if b.BGPPathA.NextHop != nil {
+			nh = b.BGPPathA.NextHop.String()
+		}
+		fmt.Fprintf(&sb, "nh=%s lp=%d med=%d origin=%d orig=%d atomic=%v ", nh, b.BGPPathA.LocalPref, b.BGPPathA.MED, b.BGPPathA.Origin, b.BGPPathA.OriginatorID, b.BGPPathA.AtomicAggregate)
+		if b.BGPPathA.Aggregator != nil {
+			fmt.Fprintf(&sb, "aggr=%v ", *b.BGPPathA.Aggregator)
+		}
+	} else {
+		sb.WriteString("noattrs ")
+	}
+	if b.ASPath != nil {
+		fmt.Fprintf(&sb, "aspath=%s ", b.ASPath.String())
+	}
+	if b.Communities != nil {
+		fmt.Fprintf(&sb, "comm=%v ", *b.Communities)
+	}
+	if b.ClusterList != nil {
+		fmt.Fprintf(&sb, "cl=%v ", *b.ClusterList)
+	}
+	fmt.Fprintf(&sb, "hidden=%d", p.HiddenReason)
+	return sb.String()
+}
